@@ -63,7 +63,7 @@ def run(ctx):
             n = len(model)
             lens = [len(s) for s in model]
             ops = ["row_slice", "row_slice", "row_mask", "row_fancy", "col_slice", "col_reverse", "eq_char", "copy", "ravel", "concat", "tolist", "assign_row", "assign_elem", "neq_char",
-                   "str_equal_ragged", "str_equal_str", "as_string_array", "view_copy_assign", "view_copy_assign", "concat_assign", "eq_ragged_other_enc", "rows_to_array_assign"]
+                   "str_equal_ragged", "str_equal_str", "as_string_array", "view_copy_assign", "view_copy_assign", "concat_assign", "eq_ragged_other_enc", "rows_to_array_assign", "string_array_eq_list"]
             if n:
                 ops += ["row_int", "row_int", "elem", "row_int_col_slice"]
             if n and min(lens) > 0:
@@ -145,6 +145,12 @@ def run(ctx):
                 if not n:
                     raise Skip()
                 return op, {"s": r.choice(model) if r.random() < 0.7 else "".join(r.choice(alpha) for _ in range(r.randint(0, 3)))}
+            if op == "string_array_eq_list":
+                # the rows as fixed-width strings compared with a list of Python strings: equal rows, rows with one more letter (longer than the longest row), shorter rows
+                if not n or not any(model) or ename != "ascii" and False:
+                    raise Skip()
+                other = [(s_ if r.random() < 0.5 else (s_ + r.choice(alpha) if r.random() < 0.6 else s_[:-1])) for s_ in model]
+                return op, {"other": other, "as": r.choice(["list", "tuple", "array"]), "neq": r.random() < 0.3}
             if op == "ragged_slice":
                 if not n:
                     raise Skip()
@@ -154,7 +160,7 @@ def run(ctx):
             return op, {}
         if kind == "flat":
             n = len(model)
-            ops = ["slice", "slice", "mask", "fancy", "reverse", "eq_char", "eq_str", "eq_arr", "copy", "ravel", "concat", "to_string", "assign_slice", "assign_scalar", "concat_assign", "assign_encoded"]
+            ops = ["slice", "slice", "mask", "fancy", "reverse", "eq_char", "eq_str", "eq_arr", "copy", "ravel", "concat", "to_string", "assign_slice", "assign_scalar", "concat_assign", "assign_encoded", "eq_arr_other_order"]
             if n:
                 ops += ["int", "int"]
             op = r.choice(ops)
@@ -170,6 +176,11 @@ def run(ctx):
                 return op, {"c": r.choice(alpha)}
             if op in ("eq_str", "eq_arr"):
                 return op, {"s": "".join(r.choice(model + alpha) if model else r.choice(alpha) for _ in range(n))}
+            if op == "eq_arr_other_order":
+                # the operand is encoded with an alphabet that orders the same letters differently: the letters are compared, or the comparison is refused
+                if not n or any(ch.upper() not in "ACGT" for ch in model):
+                    raise Skip()
+                return op, {"s": "".join(ch if r.random() < 0.6 else r.choice("ACGT") for ch in model.upper()), "neq": r.random() < 0.3}
             if op == "concat":
                 return op, {"other": "".join(r.choice(alpha) for _ in range(r.randint(0, 4)))}
             if op == "assign_slice":
@@ -291,6 +302,8 @@ def run(ctx):
                 return "bool", [a == U(p["s"]) for a in model]
             if op == "as_string_array":
                 return "pylist", list(model)
+            if op == "string_array_eq_list":
+                return "bool", [(a == U(b)) != bool(p["neq"]) for a, b in zip(model, p["other"])]
         if kind == "flat":
             if op == "int":
                 return "flat0", model[p["i"]]
@@ -306,6 +319,8 @@ def run(ctx):
                 return "bool", [c == U(p["c"]) for c in model]
             if op in ("eq_str", "eq_arr"):
                 return "bool", [c == d for c, d in zip(model, U(p["s"]))]
+            if op == "eq_arr_other_order":
+                return "bool", [(c.upper() == d) != bool(p["neq"]) for c, d in zip(model, p["s"])]
             if op == "copy":
                 return "flat", model
             if op == "ravel":
@@ -449,6 +464,11 @@ def run(ctx):
             if op == "as_string_array":
                 from bionumpy.string_array import as_string_array
                 return [str(x) for x in as_string_array(obj).tolist()]
+            if op == "string_array_eq_list":
+                from bionumpy.string_array import as_string_array
+                sa = as_string_array(obj)
+                operand = list(p["other"]) if p["as"] == "list" else (tuple(p["other"]) if p["as"] == "tuple" else np.array(p["other"]))
+                return (sa != operand) if p["neq"] else (sa == operand)
         if kind == "flat":
             if op == "int":
                 return obj[p["i"]]
@@ -466,6 +486,17 @@ def run(ctx):
                 return obj == p["s"]
             if op == "eq_arr":
                 return obj == mk(p["s"])
+            if op == "eq_arr_other_order":
+                other = bnp.as_encoded_array(p["s"], ae.ACTGEncoding if ename in ("DNA", "ACGTn", "ascii") and not (ename == "ascii" and len(p["s"]) % 2) else ae.ACGTEncoding)
+                if ename == "DNA" and other.encoding == ae.ACGTEncoding:
+                    raise Skip()
+                try:
+                    return (obj != other) if p["neq"] else (obj == other)
+                except Exception as e:
+                    if not originates_in_library(e):
+                        raise
+                    ctx.count("comparison_with_other_letter_order_refused")
+                    raise Skip()
             if op == "copy":
                 return obj.copy()
             if op == "ravel":
